@@ -195,7 +195,7 @@ def handle (j : Json) : Except String Json := do
   if (j.getObjValAs? String "kind").toOption == some "sub" then return ← handleSub j
   if (j.getObjValAs? String "kind").toOption == some "tr" then return ← handleTr j
   -- non-ASCII cased text: outside the ASCII character model, judged on the implementation alone (harness oracle)
-  if (j.getObjValAs? String "kind").toOption == some "uni" then return Json.mkObj [("tags", toJson ["uni:impl-only"])]
+  if (j.getObjValAs? String "kind").toOption == some "uni" then return Json.mkObj [("tags", toJson ["impl-only", "uni:impl-only"])]
   if (j.getObjValAs? String "kind").toOption == some "law" then return ← handleLaw j
   let cfgJ := (j.getObjVal? "cfg").toOption.getD (Json.mkObj [])
   let cfg : Config := ⟨optB cfgJ "ipc", optB cfgJ "ihc", optB cfgJ "ihdc"⟩
